@@ -181,8 +181,31 @@ def run(ctx, only=None):
         for f in fails:
             print("oracle:", f.message)
     nontrivial = {c for c, (n, a) in zip(cases, meta) if any(any(ch in x for ch in " \t\r\"'\\\x00") or x == "" for x in a)}
+    # the one argument the client writes on the application's behalf outside the command API: the password of connect_with_password(_opt)
+    n_pw = 0
+    if only is None and ctx.model_ok:
+        import looplib as L
+        # (every password here holds a blank or nothing special: special characters WITHOUT a blank are the known finding unquoted_special)
+        pws = [b'my "secret" pw', b"back\\slash and blank", b" lead", b'a\\"b c', b"plain", b"tab\there", b'" "', b"\\ ", b' "', b"a b\\", b'"q" \\', "pä\\ß w".encode()]
+        scheds = [L.Sched(cspec=f"{api}:{hexs(pw)}", conf=L.conf(pw=pw), labels=["D0", "S*", "D0", "S*", "i1:" + L.spec("echo", "a")] + L.flush(1), note=f"password {pw!r}")
+                  for pw in pws for api in "po"]
+        results = L.run_schedules(ctx, scheds)
+        disagreements = list(disagreements) + L.disagreements(results)
+        firsts = []
+        for r in results:
+            lines = [l for _, l in L.Trace(r).written_lines()]
+            firsts.append(lines[0] if lines else b"")
+        tks = ctx.run_model(["tokenize " + hexs(f + b"\n") for f in firsts])
+        for sc, pw, f, tk in zip(scheds, [pw for pw in pws for _ in "po"], firsts, tks):
+            n_pw += 1
+            want = [hexs("password"), hexs(pw)]
+            if tk == "none" or tk.split(" ")[1:] != want:
+                got = "rejected by MPD's tokenizer" if tk == "none" else "MPD sees " + repr([unhexs(x) for x in tk.split(" ")[1:]])
+                fails.append(Failure(sc.model_case(), f"connect_with_password({pw!r}) wrote the line {f[:200]!r}: {got}", extra={"password": True}))
+        dist = dict(dist)
+        dist["passwords_through_connect"] = n_pw
     return finish(
-        ctx, evaluations=len(cases), distinct_nontrivial=len(nontrivial),
+        ctx, evaluations=len(cases) + n_pw, distinct_nontrivial=len(nontrivial),
         rule="corpus of boundary arguments, then random commands with 0..5 string arguments of length 0..6 over the class alphabet "
              "(empty, space, tab, CR, VT, FF, 0x01, 0x1f, both quotes, backslash, NUL, ASCII, 2/3/4-byte UTF-8), through &str/String/Cow; "
              "thorough adds every string of length <= 4 over 10 symbols in each of 3 positions; "
@@ -193,4 +216,6 @@ def run(ctx, only=None):
 
 
 def replay(ctx, payload):
+    if payload.get("extra", {}).get("password"):
+        return run(ctx)        # the password family is small and deterministic: the whole check is its replay
     return run(ctx, only=payload.get("cases", []))
